@@ -416,6 +416,13 @@ def check_runs_tree(h: Harness):
             # (a fitness of many different values: the best of a generation is rare among newcomers)
             import zlib
             problem = SingleObjectiveProblem(lambda p: float(zlib.crc32(repr(p).encode()) % 1000), minimize=minimize)
+        elif rng.random() < 0.4:
+            # a NOISY fitness function (a sampled or simulated measurement: another value at every call): an elite enters the next
+            # generation with the fitness it was selected on -- what is recorded never gets worse
+            import random as _random
+            noise = _random.Random(rng.randrange(10**6))
+            problem = SingleObjectiveProblem(lambda p: float(sc.count_nodes(p) * 10 + noise.randint(-40, 40)), minimize=minimize)
+            h.count("run-tree:noisy-fitness-function")
         else:
             problem = SingleObjectiveProblem(lambda p: float(sc.count_nodes(p) % 7), minimize=minimize)
         rec = sc.GenRecorder(limit=4 * (gens + 1) * n + 100)
